@@ -36,11 +36,20 @@ DEFAULTS = dict(MaxItems=2, ChunkMax=1, MaxIdle=0, Dts={0}, Faults=set(), NAddr=
                 MaxReacts=0, AbandonAt=set(), Conforming=False)
 
 
-def slim(tr, kinds=None, drop=('headers', 'msg', 'url', 'host', 'port')):
+def slim(tr, kinds=None, drop=('headers', 'msg', 'url', 'host', 'port', 'key', 'len'), keep_reads=False):
     out = []
-    for r in tr:
+    lastrd = None
+    if not keep_reads:
+        for j, r in enumerate(tr):
+            if r['k'] == 'rd' and r.get('what') == 'data':
+                lastrd = j
+    for j, r in enumerate(tr):
         if kinds is not None and r['k'] not in kinds:
             continue
+        if r['k'] == 'wait' and not keep_reads:
+            continue
+        if r['k'] == 'rd' and r.get('what') == 'data' and not keep_reads and j != lastrd:
+            continue        # only the last data read matters (number of items delivered)
         if any(k in r for k in drop):
             r = {k: v for k, v in r.items() if k not in drop}
         out.append(r)
@@ -60,11 +69,11 @@ def run_model_instances(run, mc_module, monitor, instances, variants=None, kinds
         text = cfg_text(consts, invariants=inst.get('invariants', ('MonPrefix', 'MonFinal', 'Emit')))
         res, beh = pipeline.generate(mc_module, text, simulate=inst.get('simulate'), depth=inst.get('depth'),
                                      seed=run.seed if inst.get('simulate') else None, timeout=inst.get('timeout', 1800))
-        run.add_tlc('model %s %s' % (mc_module, inst['label']), res)
+        run.add_tlc('model %s %s' % (mc_module[0] if isinstance(mc_module, tuple) else mc_module, inst['label']), res)
         if res.violated:
             raise pipeline.MachineryFailure(
-                'the monitor %s rejects a behaviour of the model (%s, instance %s): model and monitor disagree\n%s'
-                % (monitor, res.violated, inst['label'], (res.error or '')[:1500]))
+                'the monitor %s rejects a behaviour of the model (%s, instance %s): model and monitor disagree\n%s\n%s'
+                % (monitor, res.violated, inst['label'], [t for t in res.tuples if 'MODEL-REJECT' in t][:3], _last_obs(res.raw)))
         if inst.get('simulate'):
             seen = set()
             uniq = []
@@ -108,3 +117,97 @@ def run_model_instances(run, mc_module, monitor, instances, variants=None, kinds
     run.transitions += states
     run.tlc_runs.append({"run": "judge " + monitor, "traces": len(traces), "distinct": states, "wall_s": round(wall, 1)})
     return results, rej
+
+
+def standard_run(prop, tier, seed, mc_module, monitor, instances, kinds, rule, nontrivial, anchors=None,
+                 variants=None, post=None, judge_field='.tr', exhaustive=None, extra=None, known_sig=None,
+                 sample_keys=('ev',)):
+    """The whole pipeline for one property decided on the session model."""
+    r = pipeline.Run(prop, tier, seed)
+    r.rule = rule
+    r.assumptions = ['simulated socket/selector/clock stand in for the OS (harness/world.py); payload bytes of symbolic '
+                     'blobs are chosen by the seeded concretiser',
+                     'bounds of each model instance are listed under coverage.detail.instances / tlc_runs']
+    if extra:
+        extra(r)
+    results, rej = run_model_instances(r, mc_module, monitor, instances, variants=variants, kinds=kinds, post=post,
+                                       judge_field=judge_field)
+    nt = set()
+    seen = set()
+    for label, b, sc, log in results:
+        key = nontrivial(log, sc)
+        if key is not None:
+            nt.add(key)
+        if anchors:
+            seen.update(anchors(log, sc))
+    r.nontrivial = len(nt)
+    r.exhaustive = (tier == 'quick') if exhaustive is None else exhaustive
+    r.cov['anchors_seen'] = sorted(seen)
+    for label, b, sc, log in results[:2] + results[len(results) // 2: len(results) // 2 + 1]:
+        r.samples.append({"instance": label, "scenario": sc,
+                          "trace": [x for x in slim(log, set(sample_keys) | {'call'})][:40]})
+    for tid, clause in rej:
+        label, b, sc, log = results[tid]
+        sig = known_sig(clause, sc, log) if known_sig else None
+        r.violation(clause, {"instance": label, "scenario": sc, "trace": slim(log, kinds)}, known_sig=sig)
+    return r, results, seen
+
+
+def standard_replay(prop, monitor, kinds, path, post=None, judge_field='.tr'):
+    from . import world
+    case = json.load(open(path))['case']
+    log, ws = world.run_scenario(case['scenario'])
+    t = {"id": 0, "tr": slim(log, kinds)}
+    if post:
+        t = post(t, ('replay', None, case['scenario'], log))
+    rej, _, _ = pipeline.judge(monitor, [t], field=judge_field)
+    for x in slim(log, kinds):
+        if x['k'] not in ('srv',):
+            print(json.dumps(x))
+    if rej:
+        print('VIOLATION property=%s replay=%s clause=%s' % (prop, path, rej[0][1]))
+        return 1
+    print('%s replay: ok' % prop)
+    return 0
+
+
+WRAPPER = """---- MODULE %(name)s ----
+EXTENDS MC_Sess, %(monitor)s
+MonPrefix == TRUE
+MonFinal == pc = "done" => (%(verdict)s = "ok" \\/ (PrintT(<<"MODEL-REJECT", %(verdict)s>>) /\\ FALSE))
+====
+"""
+
+
+def wrapper(monitor, verdict='Verdict(obs)'):
+    name = 'MCW_' + monitor
+    return (name, WRAPPER % {"name": name, "monitor": monitor, "verdict": verdict})
+
+
+def reseg(sc, how):
+    """Variant of a scenario with the same server byte stream cut differently into reads:
+    every data step is replaced by one 'drain' step placed where the first data step was."""
+    import copy
+    sc2 = copy.deepcopy(sc)
+    conn = sc2['conns'][0]
+    steps = []
+    done = False
+    for s in conn.get('steps', []):
+        if s['kind'] == 'data':
+            if not done:
+                steps.append({"kind": "drain", "bytes": how} if how != 'rand' else {"kind": "drain", "bytes": "rand", "max": 7})
+                done = True
+        else:
+            steps.append(s)
+    conn['steps'] = steps
+    return sc2
+
+
+def _last_obs(raw):
+    """The obs variable of the last state of a TLC error trace, compacted."""
+    i = raw.rfind('/\\ obs = ')
+    if i < 0:
+        return ''
+    j = raw.find('\n/\\ ', i + 5)
+    import re
+    return re.sub(r'\s+', ' ', raw[i:j if j > 0 else i + 6000])[:6000]
